@@ -517,11 +517,29 @@ class _AdbIOManager(object):
         """
         packed = msg.pack()
         _LOGGER.debug("bulk_write(%d): %r", len(packed), packed)
-        self._transport.bulk_write(packed, adb_info.transport_timeout_s)
+        self._write_all(packed, adb_info)
 
         if msg.data:
             _LOGGER.debug("bulk_write(%d): %r", len(msg.data), msg.data)
-            self._transport.bulk_write(msg.data, adb_info.transport_timeout_s)
+            self._write_all(msg.data, adb_info)
+
+    def _write_all(self, data, adb_info):
+        """Write all of ``data`` to the device, calling ``bulk_write`` again if the transport only accepted part of it.
+
+        Parameters
+        ----------
+        data : bytes, bytearray
+            The data that will be sent
+        adb_info : _AdbTransactionInfo
+            Info and settings for this ADB transaction
+
+        """
+        view = memoryview(data)
+        while len(view) > 0:
+            sent = self._transport.bulk_write(bytes(view), adb_info.transport_timeout_s)
+            if not isinstance(sent, int) or sent >= len(view):
+                break
+            view = view[max(sent, 0):]
 
 
 class AdbDevice(object):
